@@ -13,7 +13,7 @@ def _get_anyof_typing(field, locals_attrs, additional_classes):
     union_fields = getattr(field, "_fields", [])
     if len(union_fields) == 2 and isinstance(union_fields[1], NoneField):
         info = get_type_info(union_fields[0], locals_attrs, additional_classes)
-        return f"Optional[{info}] = None"
+        return f"Optional[{info}]"
 
     fields = ",".join(
         [get_type_info(f, locals_attrs, additional_classes) for f in union_fields]
@@ -202,12 +202,12 @@ def get_all_type_info(cls, locals_attrs, additional_classes) -> dict:
             continue
         try:
             type_info_str: str = get_type_info(field, locals_attrs, additional_classes)
-            if (
-                field_name not in required
-                and required is not None
-                and not type_info_str.startswith("Optional[")
-            ):
-                type_info_str = f"Optional[{type_info_str}] = None"
+            if field_name not in required and required is not None:
+                type_info_str = (
+                    f"{type_info_str} = None"
+                    if type_info_str.startswith("Optional[")
+                    else f"Optional[{type_info_str}] = None"
+                )
             type_by_name[field_name] = type_info_str
         except Exception as e:
             logging.exception(e)
